@@ -230,6 +230,41 @@ def typestrs_arg(obj, what="type"):
     return ks, vs
 
 
+class InstanceRegistry(object):
+    """pybind11 keeps a map from C++ object addresses to live Python wrappers: casting a std::shared_ptr to an
+    object that is already wrapped returns the existing wrapper (`layout.content is layout.content`, `rec.array is
+    recordarray`).  One registry per handle family; `raw(handle)` gives the C++ object address."""
+
+    def __init__(self, raw):
+        import weakref
+        self._raw = raw
+        self._map = weakref.WeakValueDictionary()
+
+    def add(self, obj):
+        h = getattr(obj, "_h", None)
+        if h:
+            self._map[self._raw(h)] = obj
+        return obj
+
+    def find(self, h, cls):
+        existing = self._map.get(self._raw(h))
+        if existing is not None and type(existing) is cls and getattr(existing, "_h", None):
+            return existing
+        return None
+
+    def metaclass(self, name="_Registered"):
+        registry = self
+
+        class _Registered(type):
+            """registers instances made through the constructor (wrappers made from handles register themselves)"""
+
+            def __call__(cls, *args, **kwargs):
+                return registry.add(type.__call__(cls, *args, **kwargs))
+
+        _Registered.__name__ = name
+        return _Registered
+
+
 def no_pickle(cls):
     """pybind11 classes without py::pickle cannot be pickled or copied with the copy module; the stand-in objects
     hold a raw bridge handle, so the default slot-based reduction must never run"""
